@@ -33,6 +33,10 @@ type c08Handler struct {
 	// next is the handler that mode "next" passes the query on to (the real
 	// forwarding handler in part forward).
 	next Handler
+
+	// seq are the responses of mode "seq", one per query in the order of
+	// arrival (part tcp-conn-history).
+	seq []*dns.Msg
 }
 
 // ServeDNS implements the [Handler] interface for *c08Handler.
@@ -44,6 +48,15 @@ func (h *c08Handler) ServeDNS(ctx context.Context, rw ResponseWriter, req *dns.M
 		return errors.New("c08: scripted handler error")
 	case "next":
 		return h.next.ServeDNS(ctx, rw, req)
+	case "seq":
+		if len(h.seq) == 0 {
+			return errors.New("c08: more queries than scripted responses")
+		}
+		resp := h.seq[0]
+		h.seq = h.seq[1:]
+		resp.Id = req.Id
+
+		return rw.WriteMsg(ctx, req, resp)
 	default:
 		return rw.WriteMsg(ctx, req, h.resp)
 	}
@@ -221,19 +234,130 @@ func c08StreamObs(written []byte, why string) (obs c08Obs) {
 	return c08Obs{Sent: true, Wire: written[2:]}
 }
 
+// c08GatedConn is an in-memory net.Conn for the connection-level seam
+// serveTCPConn: it delivers the framed queries one after the other, each only
+// after the response to the previous one has been written completely (or the
+// connection has been closed), then EOF.  Everything written is recorded.
+type c08GatedConn struct {
+	mu     sync.Mutex
+	cond   *sync.Cond
+	frames [][]byte
+	cur    int
+	off    int
+	out    bytes.Buffer
+	closed bool
+}
+
+func newC08GatedConn(queries [][]byte) (c *c08GatedConn) {
+	c = &c08GatedConn{}
+	c.cond = sync.NewCond(&c.mu)
+	for _, q := range queries {
+		f := make([]byte, 2+len(q))
+		f[0], f[1] = byte(len(q)>>8), byte(len(q))
+		copy(f[2:], q)
+		c.frames = append(c.frames, f)
+	}
+
+	return c
+}
+
+// responses returns the number of complete response frames written so far.
+// c.mu must be held.
+func (c *c08GatedConn) responses() (n int) {
+	b := c.out.Bytes()
+	for len(b) >= 2 {
+		l := int(b[0])<<8 | int(b[1])
+		if len(b) < 2+l {
+			break
+		}
+		b = b[2+l:]
+		n++
+	}
+
+	return n
+}
+
+func (c *c08GatedConn) Read(p []byte) (n int, err error) {
+	c.mu.Lock()
+	defer c.mu.Unlock()
+	if c.cur < len(c.frames) && c.off == 0 {
+		// The next query is sent when the previous ones have been answered.
+		deadline := time.Now().Add(120 * time.Second)
+		for !c.closed && c.responses() < c.cur {
+			if time.Now().After(deadline) {
+				vrt.Fatalf("c08: no response to query %d of the connection within 120 s", c.cur)
+			}
+			c08CondWait(c.cond, time.Second)
+		}
+	}
+	if c.closed {
+		return 0, net.ErrClosed
+	}
+	if c.cur >= len(c.frames) {
+		return 0, io.EOF
+	}
+	n = copy(p, c.frames[c.cur][c.off:])
+	c.off += n
+	if c.off == len(c.frames[c.cur]) {
+		c.cur, c.off = c.cur+1, 0
+	}
+
+	return n, nil
+}
+
+// c08CondWait waits on cond, but not longer than d.
+func c08CondWait(cond *sync.Cond, d time.Duration) {
+	t := time.AfterFunc(d, cond.Broadcast)
+	cond.Wait()
+	t.Stop()
+}
+
+func (c *c08GatedConn) Write(p []byte) (n int, err error) {
+	c.mu.Lock()
+	defer c.mu.Unlock()
+	n, err = c.out.Write(p)
+	c.cond.Broadcast()
+
+	return n, err
+}
+
+func (c *c08GatedConn) Close() error {
+	c.mu.Lock()
+	defer c.mu.Unlock()
+	c.closed = true
+	c.cond.Broadcast()
+
+	return nil
+}
+func (c *c08GatedConn) LocalAddr() net.Addr                { return c08TCPLocal }
+func (c *c08GatedConn) RemoteAddr() net.Addr               { return c08TCPRemote }
+func (c *c08GatedConn) SetDeadline(_ time.Time) error      { return nil }
+func (c *c08GatedConn) SetReadDeadline(_ time.Time) error  { return nil }
+func (c *c08GatedConn) SetWriteDeadline(_ time.Time) error { return nil }
+
+// c08ServeTCPConn runs the real connection loop serveTCPConn on a connection
+// that carries the given queries and returns everything that was written and
+// whether the server has closed the connection before the client's EOF.
+func c08ServeTCPConn(s *ServerDNS, queries [][]byte) (written []byte, closedEarly bool) {
+	conn := newC08GatedConn(queries)
+	s.started = true
+	s.wg.Add(1)
+	ctx := ContextWithServerInfo(context.Background(), &ServerInfo{Name: s.name, Addr: s.addr, Proto: s.proto})
+	s.serveTCPConn(ctx, conn)
+	conn.mu.Lock()
+	defer conn.mu.Unlock()
+
+	return bytes.Clone(conn.out.Bytes()), conn.cur < len(conn.frames) || conn.responses() < len(conn.frames)
+}
+
 func c08RunTCP(s *ServerDNS, req []byte) (obs c08Obs) {
-	ctx, cancel := c08ReqCtx(s.ServerBase)
-	defer cancel()
-	conn := &c08Conn{}
-	wg := &sync.WaitGroup{}
-	wg.Add(1)
-	s.serveTCPMessage(ctx, wg, &sync.Mutex{}, req, conn)
+	written, closedEarly := c08ServeTCPConn(s, [][]byte{req})
 	why := "nothing-written"
-	if conn.closed {
+	if closedEarly {
 		why = "conn-closed"
 	}
 
-	return c08StreamObs(conn.buf.Bytes(), why)
+	return c08StreamObs(written, why)
 }
 
 func c08RunCrypt(rig *c08Rig, local, remote net.Addr, reqBytes []byte) (obs c08Obs) {
